@@ -149,7 +149,8 @@ impl StreamingBodyBuilder {
             /*@C15 #head_headers_as_get unless=get_headers*/ !self.body_needed ==> r.0.extra.appended@ =~= (if self.should_gzip && self.gzip_level > 0 {
                     seq![(HeaderName::VARY, HV::Static("accept-encoding"@)), (HeaderName::CONTENT_ENCODING, HV::Static("gzip"@))]
                 } else { seq![(HeaderName::VARY, HV::Static("accept-encoding"@))] }),
-            /*@C09,C17 #writer_coding_matches_header*/ r.1 matches Some(w) ==> (if self.should_gzip && self.gzip_level > 0 { w.0 matches Inner::Gzipped(g) && g.level() == self.gzip_level } else { w.0 is Raw }),
+            /*@C17 #writer_coding_matches_header*/ r.1 matches Some(w) ==> (if self.should_gzip && self.gzip_level > 0 { w.0 matches Inner::Gzipped(g) && g.level() == self.gzip_level } else { w.0 is Raw }),
+            /*@C09 #negotiated_gzip_gets_an_encoder_of_the_configured_level*/ r.1 matches Some(w) ==> ((self.should_gzip && self.gzip_level > 0) ==> (w.0 matches Inner::Gzipped(g) && g.level() == self.gzip_level)),
             /*@C15 #no_writer_for_head*/ r.1.is_some() == self.body_needed,
             /*@C15,C17 #status_and_builder_headers*/ r.0.v@.status == 200 && r.0.v@.hdrs.len() == 0,
             /*@C08,C09 #writer_feeds_this_body*/ r.1 matches Some(w) ==> (r.0.body.0 matches body::BodyStream::Chunker(rd) && match w.0 {
